@@ -575,6 +575,14 @@ func (p *Pset) serialize() ([]byte, error) {
 		return nil, err
 	}
 
+	// Global entries this package does not interpret are written back as they
+	// were read.
+	for _, kv := range p.Unknowns {
+		if err := serializeKVpair(buffer, kv.Key, kv.Value); err != nil {
+			return nil, err
+		}
+	}
+
 	// With that our global section is done, so we'll write out the
 	// separator.
 	separator := []byte{0x00}
